@@ -134,4 +134,26 @@ def runScript (s : St) : List Step → St
   | [] => drain s
   | a :: rest => runScript (drain ((step s a).getD s)) rest
 
+/-!
+  ### `bfe_tls.Conn.Write` (the client side of a TLS tunnel is written through it): the returned byte count
+
+    var m int
+    if len(b) > 1 && c.vers <= VersionTLS10 { if cipher is a BlockMode { writeRecord(b[:1]); m, b = 1, b[1:] } }
+    n, err := c.writeRecord(recordTypeApplicationData, b); return n + m, err
+  `writeRecord` cuts its argument into records of at most `maxPlaintext` bytes and returns the bytes consumed.
+-/
+def maxPlaintext : Nat := 16384
+
+/-- lengths of the records `writeRecord` emits for `n` bytes -/
+def frags : Nat → Nat → List Nat
+  | 0, _ => []
+  | fuel + 1, n => if n = 0 then [] else (min n maxPlaintext) :: frags fuel (n - min n maxPlaintext)
+
+def writeRecordCount (n : Nat) : Nat := (frags (n + 1) n).sum
+
+/-- the count `Conn.Write` returns for a buffer of `n` bytes when no record write fails -/
+def writeCount (tls10OrOlder cbc : Bool) (n : Nat) : Nat :=
+  if n > 1 ∧ tls10OrOlder = true ∧ cbc = true then writeRecordCount 1 + writeRecordCount (n - 1)
+  else writeRecordCount n
+
 end BfeVerif.C47
